@@ -58,10 +58,17 @@ def mk(clsname, arrs):
 
 
 def operand(rng, clsname):
+    r_ = rng.random()
     if clsname == 'Twist3':
         w = gen.unit_axis(rng) * gen.rot_angle(rng)
+        if r_ < 0.12:        # a pure translation (irrotational twist): a sequence then mixes kinds
+            return np.r_[gen.vec(rng, 3, 1e-3, 1e3), 0, 0, 0]
+        if r_ < 0.2:         # a pure rotation about an axis through the origin
+            return np.r_[0.0, 0, 0, w]
         return np.r_[gen.transl(rng), w]
     if clsname == 'Twist2':
+        if r_ < 0.12:
+            return np.r_[gen.vec(rng, 2, 1e-3, 1e3), 0.0]
         return np.r_[gen.transl(rng, 2), gen.sign(rng) * gen.rot_angle(rng)]
     return ctors.ref_leaf(rng, clsname, 1)[0]
 
@@ -104,7 +111,7 @@ def run_law(ctx, p):
     c, law, ops, n = p['cls'], p['law'], [np.asarray(a, dtype=np.float64) for a in p['ops']], p.get('n', 0)
     tw = c in ('Twist2', 'Twist3')
     sig = dict(api=c, law=law)
-    if law in ('divseq', 'powseq', 'prodseq'):
+    if law in ('divseq', 'powseq', 'prodseq', 'mulseq', 'antiseq'):
         return run_seq_law(ctx, p)
     try:
         X = mk(c, [ops[0]])
@@ -248,6 +255,27 @@ def run_seq_law(ctx, p):
             for i in range(max(len(xs), len(ys))):
                 xi, yi = xs[i if len(xs) > 1 else 0], ys[i if len(ys) > 1 else 0]
                 want.append((mk(c, [xi]) * mk(c, [yi]).inv()).data[0])
+        elif law in ('mulseq', 'antiseq'):
+            # composition (and the inverse of a composition) of objects holding several values, in the M x M, M x 1 and 1 x M forms:
+            # value i is the single-valued law on the i-th values, in this order (the group is not commutative)
+            Y = mk(c, ys)
+            got = X * Y if law == 'mulseq' else (X * Y).inv()
+            want = []
+            for i in range(max(len(xs), len(ys))):
+                xi, yi = mk(c, [xs[i if len(xs) > 1 else 0]]), mk(c, [ys[i if len(ys) > 1 else 0]])
+                want.append((xi * yi).data[0] if law == 'mulseq' else (yi.inv() * xi.inv()).data[0])
+            if c in ('Twist2', 'Twist3'):
+                if len(got) != len(want):
+                    ctx.bad('law', dict(sig, kind='length'), '%s %s: %d results for %d x %d operands' % (c, law, len(got), len(xs), len(ys)))
+                    return
+                gm, wm = [as_motion(c, g) for g in got.data], [as_motion(c, w) for w in want]
+                d_ = max(float(np.max(np.abs(np.asarray(g) - np.asarray(w)))) for g, w in zip(gm, wm))
+                sc_ = max([1.0] + [tmag(g) for g in gm + wm] + [tmag(as_motion(c, o)) for o in xs + ys])
+                ctx.judge('law', d_ <= TOL_TW * sc_, dict(sig, kind='mismatch', lens='%s,%s' % ('M' if len(xs) > 1 else '1', 'M' if len(ys) > 1 else '1')),
+                          lambda: '%s %s on sequences (%d,%d): differs from the per-value law by %.3g (as motions)' % (c, law, len(xs), len(ys), d_))
+                ctx.cell('law', c, law, '%dx%d' % (len(xs), len(ys)))
+                ctx.nontrivial(c, law, len(xs), [np.round(o, 6).tolist() for o in xs + ys])
+                return
         elif law == 'prodseq':
             # sequence product: the elements multiplied in order, left to right (the group is not commutative)
             got = X.prod()
@@ -498,18 +526,18 @@ def run(ctx):
     for _ in range(ctx.scale(9000, 300000)):
         c = ALL[rng.integers(len(ALL))]
         tw = c in ('Twist2', 'Twist3')
-        laws = ['assoc', 'identL', 'identR', 'invL', 'invR', 'antihom', 'prodseq'] if tw else LAWS
+        laws = ['assoc', 'identL', 'identR', 'invL', 'invR', 'antihom', 'prodseq', 'mulseq', 'antiseq'] if tw else LAWS + ['mulseq', 'antiseq']
         if c in ('SO2', 'SO3', 'UnitQuaternion'):
             laws = [l for l in laws if l != 'structinv']
         if c == 'UnitQuaternion':
             laws = [l for l in laws if l not in ('structinv', 'prodseq')]      # (UnitQuaternion offers no prod())
         law = laws[rng.integers(len(laws))]
         n = int(rng.integers(1, 9))
-        if law in ('divseq', 'powseq', 'prodseq'):
+        if law in ('divseq', 'powseq', 'prodseq', 'mulseq', 'antiseq'):
             m = int(rng.integers(2, 5))
             xs = [operand(rng, c) for _ in range(m)]
             ys = [operand(rng, c) for _ in range(m if rng.random() < 0.5 else 1)]
-            if law == 'divseq' and rng.random() < 0.3:
+            if law in ('divseq', 'mulseq', 'antiseq') and rng.random() < 0.3:
                 xs = xs[:1]
                 ys = [operand(rng, c) for _ in range(m)]
             p = dict(cls=c, law=law, ops=xs, ops2=ys, n=int(rng.integers(-8, 9)))
